@@ -12,6 +12,7 @@ import sys
 import time
 import traceback
 import z3
+from . import contracts as _C
 
 from . import smt
 from .contracts import verify, VerifyResult
@@ -639,6 +640,8 @@ class Run(object):
             'undecided': self.undecided[:50],
             'n_undecided': len(self.undecided),
             'known_findings': sorted(known_lines.keys()),
+            'assumed_contracts_used': sorted(_C.ASSUMED_USED),
+            'contracts_applied_at_call_sites': len(_C.APPLIED),
             'samples': self.samples[:8],
             'vacuity': dict(self.vacuity, path_witnesses_replayed=self.witnesses, path_witnesses_agree=self.witness_ok),
             'units': [{'unit': u.name, 'function': u.qual, 'paths': u.result.paths,
